@@ -37,6 +37,9 @@ THEOREMS = [
     "CrCube.C05.aliases_reindexed",
     "CrCube.C05.codes_reindexed",
     "CrCube.C05.fills_reindexed",
+    "CrCube.C05.name_fill_ignore_hide",
+    "CrCube.C05.rebuildWith_stripHide",
+    "CrCube.C05.entry_ignores_hide",
 ]
 RULE = ("random 1-D / 2-D / 3-D designs over cat / cat_date / logical / text / binned / mr (with derived items) / ca x payload "
         "edits (blank, null, missing element names, dimension names, descriptions, selected_categories) x transforms with "
